@@ -565,6 +565,50 @@ func (g *Engine) registerIntrinsics() {
 			return a[0]
 		}
 	}
+	I["(*math/big.Int).Mul"] = func(e *Exec, fn *ssa.Function, a []Value) Value {
+		tb := e.tb
+		x, y := tb.ZExt(bigOf(e, a[1]), 512), tb.ZExt(bigOf(e, a[2]), 512)
+		r := tb.Bin(OpMul, x, y)
+		if !e.branch(tb.Eq(tb.Extract(r, 511, 256), tb.BVu(0, 256))) {
+			e.handleLimit("oob", "big.Int result outside [0,2^256)")
+		}
+		e.store(a[0].(Ptr), BigV{tb.Extract(r, 255, 0)})
+		return a[0]
+	}
+	I["(*math/big.Int).Div"] = func(e *Exec, fn *ssa.Function, a []Value) Value {
+		tb := e.tb
+		x, y := bigOf(e, a[1]), bigOf(e, a[2])
+		if !e.branch(tb.BNot(tb.Eq(y, tb.BVu(0, 256)))) {
+			e.goPanic("division by zero")
+		}
+		e.store(a[0].(Ptr), BigV{tb.Bin(OpUDiv, x, y)})
+		return a[0]
+	}
+	I["(*math/big.Int).Mod"] = func(e *Exec, fn *ssa.Function, a []Value) Value {
+		tb := e.tb
+		x, y := bigOf(e, a[1]), bigOf(e, a[2])
+		if !e.branch(tb.BNot(tb.Eq(y, tb.BVu(0, 256)))) {
+			e.goPanic("division by zero")
+		}
+		// over-approximated: some value below the modulus, a function of both operands
+		uf := tb.UF("big_mod", 256, x, y)
+		e.store(a[0].(Ptr), BigV{tb.Ite(tb.Cmp(OpUlt, uf, y), uf, tb.BVu(0, 256))})
+		return a[0]
+	}
+	I["(*math/big.Int).Exp"] = func(e *Exec, fn *ssa.Function, a []Value) Value {
+		// modular exponentiation with a non-nil modulus: uninterpreted, below 2^256
+		m, _ := a[3].(Ptr)
+		if m.obj == nil {
+			panic(unsupported("big.Int.Exp without modulus"))
+		}
+		mod := bigOf(e, a[3])
+		if !e.branch(e.tb.BNot(e.tb.Eq(mod, e.tb.BVu(0, 256)))) {
+			panic(unsupported("big.Int.Exp with modulus 0"))
+		}
+		uf := e.tb.UF("big_exp", 256, bigOf(e, a[1]), bigOf(e, a[2]), mod)
+		e.store(a[0].(Ptr), BigV{e.tb.Ite(e.tb.Cmp(OpUlt, uf, mod), uf, e.tb.BVu(0, 256))})
+		return a[0]
+	}
 	I["(*math/big.Int).Add"] = bigBin(OpAdd)
 	I["(*math/big.Int).Sub"] = bigBin(OpSub)
 	I["(*math/big.Int).Bytes"] = func(e *Exec, fn *ssa.Function, a []Value) Value {
